@@ -282,6 +282,58 @@ def r17_4(ctx, rep):
         rep.note("R17.4: add() has no early exit")
 
 
+@SPEC.rule(
+    "R17.5",
+    "the canonical set holds canonical names and is updated on every merge: in add(), what is added to _canonical_variables is "
+    "the name component of canonical_signed(<first argument>) and what is discarded is the name component of "
+    "canonical_signed(<second argument>) — never a raw (possibly signed) argument — and every path that updates the maps passes "
+    "the addition",
+)
+def r17_5(ctx, rep):
+    from ..cfg import CFG
+    R = "R17.5"
+    fn = ctx.func(AR, CLS + ".add", R)
+    site = AR + ":%s.add" % CLS
+    params = [a.arg for a in fn.args.args[1:3]]
+    # names bound to the name component of canonical_signed(<param>)
+    canon = {}
+    for st in walk_local(fn):
+        if isinstance(st, ast.Assign) and isinstance(st.value, ast.Call) and norm(st.value.func) == "self.canonical_signed" and st.value.args \
+                and isinstance(st.value.args[0], ast.Name) and st.value.args[0].id in params:
+            t = st.targets[0]
+            if isinstance(t, ast.Tuple) and isinstance(t.elts[0], ast.Name):
+                canon[t.elts[0].id] = st.value.args[0].id
+    cfg = CFG(fn, R)
+    adds = [x for x in cfg.stmts() if any(isinstance(c.func, ast.Attribute) and c.func.attr == "add" and norm(c.func.value) == "self._canonical_variables" for c in calls(x.ast))]
+    discards = [x for x in cfg.stmts() if any(isinstance(c.func, ast.Attribute) and c.func.attr in ("discard", "remove") and norm(c.func.value) == "self._canonical_variables" for c in calls(x.ast))]
+    if not adds or not discards:
+        raise MechanismMissing(R, "add() no longer adds to / discards from _canonical_variables")
+
+    def arg_of(x, attrs):
+        for c in calls(x.ast):
+            if isinstance(c.func, ast.Attribute) and c.func.attr in attrs and norm(c.func.value) == "self._canonical_variables" and c.args:
+                return c.args[0]
+        return None
+
+    for x in adds:
+        a = arg_of(x, ("add",))
+        rep.ob(R, site, "added name is canonical_signed(%s)[0]" % params[0], isinstance(a, ast.Name) and canon.get(a.id) == params[0],
+               "`%s` puts something other than the canonical name of the first argument into the canonical set: for add('-a', 'b') the set would "
+               "hold '-a' while canonical_signed says 'a' — iteration, canonical_variables and remove() then disagree with the maps" % norm(x.ast))
+    for x in discards:
+        a = arg_of(x, ("discard", "remove"))
+        rep.ob(R, site, "discarded name is canonical_signed(%s)[0]" % params[1], isinstance(a, ast.Name) and canon.get(a.id) == params[1],
+               "`%s` must discard the canonical name of the second argument's class (found %s)" % (norm(x.ast), norm(a) if a is not None else None))
+    # every path that rewrites the canonical map passes an addition
+    stores = [x for x in cfg.stmts() if isinstance(x.ast, ast.Assign) and any(isinstance(t, ast.Subscript) and norm(t.value) == "self._canonical_variables_map" for t in x.ast.targets)]
+    w = None
+    for s_ in stores:
+        w = w or cfg.must_pass(cfg.entry, s_.id, {x.id for x in adds})
+    rep.ob(R, site, "canonical set updated on every merge", bool(stores) and w is None,
+           "the canonical map is rewritten on a path that did not add the merged class's canonical name to _canonical_variables",
+           path=cfg.describe(w) if w else "")
+
+
 # -- seeded variants ---------------------------------------------------------
 from ._mut import delete_stmt_where, replace_in_func  # noqa: E402
 
@@ -362,6 +414,18 @@ def _m_ident(mod):
         for n in ast.walk(fn):
             if isinstance(n, ast.If) and isinstance(n.test, ast.Compare) and isinstance(n.test.ops[0], ast.In) and is_name(n.test.left, "b"):
                 n.test = ast.parse("self.aliases(b) is aliases", mode="eval").body
+                return True
+        return False
+
+    return mod if replace_in_func(mod, "AliasRelation.add", edit) else None
+
+
+@SPEC.mutant("canonical set gets the raw first argument", AR, "R17.5", "added name")
+def _m_rawadd(mod):
+    def edit(fn):
+        for c in ast.walk(fn):
+            if isinstance(c, ast.Call) and isinstance(c.func, ast.Attribute) and c.func.attr == "add" and norm(c.func.value) == "self._canonical_variables":
+                c.args[0] = ast.Name(id="a", ctx=ast.Load())
                 return True
         return False
 
